@@ -43,6 +43,12 @@ Proof.
   - rewrite nth_error_set_nth_other; auto.
 Qed.
 
+Lemma name_if_created_le : forall n0 st v x, store_le st (name_if_created n0 st v x).
+Proof.
+  intros n0 st v x. destruct v; try apply store_le_refl. cbn [name_if_created].
+  destruct (Nat.leb n0 id); [apply name_if_lambda_le|apply store_le_refl].
+Qed.
+
 Lemma fresh_lambda_le : forall st args body scope v st',
   fresh_lambda st args body scope = (v, st') -> store_le st st'.
 Proof.
@@ -246,10 +252,10 @@ Section EvalMono.
         destruct o; try (inversion H; subst; exact E1).
         apply IH in H. eapply store_le_trans; eauto.
   Qed.
-  Lemma bind_value_st : forall c1 x v r c', bind_value c1 x v = (r, c') -> store_le (fst c1) (fst c').
+  Lemma bind_value_st : forall n0 c1 x v r c', bind_value n0 c1 x v = (r, c') -> store_le (fst c1) (fst c').
   Proof.
-    intros c1 x v r c' H. unfold bind_value in H.
-    destruct (insert_head (snd c1) x v); inversion H; subst; cbn [fst]; apply name_if_lambda_le.
+    intros n0 c1 x v r c' H. unfold bind_value in H.
+    destruct (insert_head (snd c1) x v); inversion H; subst; cbn [fst]; apply name_if_created_le.
   Qed.
   Lemma assign_value_st : forall ev x ve, st_ok ev ve ->
     forall c r c', assign_value ev c x ve = (r, c') -> store_le (fst c) (fst c').
